@@ -18,6 +18,7 @@ import (
 	"bytes"
 	"context"
 	"os"
+	"path/filepath"
 	"time"
 
 	"github.com/dgraph-io/badger/v3"
@@ -67,6 +68,18 @@ func (s *SSD) Configure(config map[string]interface{}) error {
 	// Make sure we have a directory
 	if err := os.MkdirAll(dir, 0777); err != nil {
 		return err
+	}
+
+	// A process that is killed while badger creates or deletes a memtable file leaves that
+	// file behind with length zero (it is truncated before it is unlinked, and created before
+	// it is sized), and badger v3 then refuses to open the directory once ("Create a new
+	// file"). A zero-length memtable file holds no entry, so it is safe to remove it.
+	if names, err := filepath.Glob(filepath.Join(dir, "*.mem")); err == nil {
+		for _, name := range names {
+			if fi, err := os.Stat(name); err == nil && fi.Size() == 0 {
+				os.Remove(name)
+			}
+		}
 	}
 
 	// Create the options
